@@ -56,6 +56,20 @@ var vals = []string{"v", "value-with-some-length", "x", "a-considerably-longer-v
 func genOps(t *rapid.T) []op {
 	n := rapid.IntRange(4, 24).Draw(t, "n")
 	var ops []op
+	if rapid.IntRange(0, 7).Draw(t, "movescenario") == 0 {
+		// two collections and a command that writes both keys, placed last: with the limit one byte above the usage
+		// before it (see the limit placement), the first of its writes can be admitted and the second refused —
+		// the command then has to fail as a whole
+		db := rapid.SampledFrom([]int{0, 1}).Draw(t, "mdb")
+		big := vals[len(vals)-1]
+		pre := [][]string{{"RPUSH", "k1", big, "e2"}, {"RPUSH", "k2", "w"}, {"SADD", "k3", big, "m"}, {"SADD", "k4", "x"}}
+		for _, c := range pre {
+			ops = append(ops, op{DB: db, Cmd: c})
+		}
+		mv := rapid.SampledFrom([][]string{{"LMOVE", "k1", "k2", "LEFT", "RIGHT"}, {"LMOVE", "k1", "k2", "LEFT", "LEFT"}, {"SMOVE", "k3", "k4", big}, {"RENAME", "k1", "k5"}, {"MSET", "k5", big, "k6", big}}).Draw(t, "mv")
+		ops = append(ops, op{DB: db, Cmd: mv})
+		return append(ops, op{DB: db, Cmd: []string{"\x00two-key-last"}})
+	}
 	if rapid.IntRange(0, 7).Draw(t, "flushscenario") == 0 {
 		// volatile keys, then a flush, then growth by keys without an expiry: bookkeeping left behind by the
 		// flush must not be picked as a candidate (or looped over for ever) when the limit is reached
@@ -153,11 +167,19 @@ func present(s *sut.Server) map[keyID]bool {
 
 func runCase(t *rapid.T, replay *caseData) {
 	var cd caseData
+	twoKeyLast := false
 	if replay != nil {
 		cd = *replay
 	} else {
 		cd.Policy = rapid.SampledFrom(policies).Draw(t, "policy")
 		cd.Ops = genOps(t)
+		if n := len(cd.Ops); n > 0 && cd.Ops[n-1].Cmd[0] == "\x00two-key-last" {
+			cd.Ops = cd.Ops[:n-1]
+			twoKeyLast = true
+			if rapid.IntRange(0, 2).Draw(t, "mpolicy") > 0 {
+				cd.Policy = "noeviction"
+			}
+		}
 	}
 	lru := strings.HasSuffix(cd.Policy, "lru")
 	lfu := strings.HasSuffix(cd.Policy, "lfu")
@@ -186,6 +208,9 @@ func runCase(t *rapid.T, replay *caseData) {
 	if replay == nil {
 		idx := rapid.IntRange(0, len(cd.Ops)-1).Draw(t, "limit_step")
 		how := rapid.SampledFrom([]string{"below", "at", "above", "beyond", "at", "below"}).Draw(t, "limit_how")
+		if twoKeyLast && len(cd.Ops) >= 2 && rapid.IntRange(0, 3).Draw(t, "mlimit") > 0 {
+			idx, how = len(cd.Ops)-2, "above"
+		}
 		base := usage[idx]
 		if base <= 0 {
 			base = maxU
